@@ -76,7 +76,9 @@ CLAIMS = {
              'lookup_first_offer_consistent / block_bindings_end_real / section_bindings_end_real (on the namespace as it '
              'really is after any block - filled attribute caches included, via the cache-consistency invariant '
              'Lemmas.Cache.all_cons of all 15 interpreter functions - every name resolves exactly as before the block), tag_lookup_calls / '
-             'tag_lookup_renders_template / expr_lookup_does_not_call. Correspondence: results and call traces; oracle: winner '
+             'tag_lookup_renders_template / expr_lookup_does_not_call; InstanceDict.__getitem__ is TRANSLATED from /repo on every '
+             'run (harness/trans_ns.py -> GenNs.lean) and proved equal to the model\'s instance lookup '
+             '(gen_instancedict_getitem_is_model). Correspondence: results and call traces; oracle: winner '
              'computed from the documented order over all 128 source subsets x {plain, callable, template} (+ private names), '
              'scope-stack evaluator over random nestings of let/with/in/if/try-except with probes before/inside/after, '
              'name-vs-expression forms, re-entered templates under shadowing blocks',
@@ -271,14 +273,18 @@ CLAIMS = {
              'modifier_order_independent, applied_sublist, applied_iff, case_mods_are_methods, rfindSpace_spec, '
              'truncate_spec, sql_quote_spec, thousands_commas_only_inserts_commas, missing_replaces_undefined, '
              'null_values, null_replaces_null, pipeline_stages, tag_unquote_applies_twice, '
-             'unquote_inverts_quote_partial, finding_C15_double_unquote; correspondence on random specs x values '
+             'unquote_inverts_quote_partial, finding_C15_double_unquote; Var.render is TRANSLATED from /repo on every run '
+             '(harness/trans_var.py -> GenVar.lean): gen_var_render_stages (the order of the stages as the source has it), '
+             'gen_truncate_is_model (the size / etc block, statement by statement, equals VarPipe.truncate); '
+             'correspondence on random specs x values '
              '(str/int/None/objects/undefined/tainted) incl. permuted option order; documentation oracles on the '
              'real tag (truncation rule, str methods on full Unicode, grouping, url round trip, sql_quote, null table)',
         note='Trusted: Lean kernel; VarPipe model validated by correspondence; Unicode case mapping, urllib codec, '
              'float formatting are parameters / oracle-only. Partial: url_unquote inverts url_quote only without '
              '%XX (finding C15-double-unquote); digit grouping tested against a reference, proved only as '
              '"inserts nothing but commas"',
-        technique='Lean 4 proof (table obligations by decide, structural lemmas) + correspondence + doc oracles',
+        technique='Lean 4 proof (table obligations by decide, structural lemmas) over a model partly regenerated from the source '
+                  '(statement-by-statement translator) + correspondence + doc oracles',
         ref='DESIGN.md §5 C15'),
     'C13': dict(
         text='Lean 4 theorems about the sort model (key extraction, per-field comparator with function and '
